@@ -11,6 +11,13 @@ Correspondence: oracle = the compilers.  Python generates compile probes (harnes
                 against both compilers), `passed_as` spies (what expression reaches the functor), the C20 call-type table
                 (`static_assert(is_same)` on every call site, a source scan of the `function_pointer_cast` sites and a
                 `clang++ -fsanitize=function` run of harness/types_c20_run.cc).
+                The universe contains three types whose explicit and implicit convertibility differ (`enum class E : int`,
+                `struct Xb { explicit operator bool() const; }`, `struct Xd { explicit operator double() const; }`): the
+                model (`conv` = implicit, `onlyExplicit` = static_cast only) and the monitor table (CONVERTIBLE vs
+                EXPLICIT_ONLY) say that only implicit convertibility makes a result / an argument acceptable; the
+                generator draws them at parameter, bound-argument and result positions on all four routes (slot, connect,
+                accumulated-signal connect, signal_connect) and has two dedicated defect flavours (`explicitresult`,
+                `explicitparam`); retype() is the one place where the explicit conversions are expected to be accepted.
 Monitor:        harness/types_gen.statement_category — the statement of C05 per probe, from first-principle tables.
 """
 import json
@@ -35,28 +42,38 @@ REQUIRED = [
     "Sigc.C05.nonconst_ref_from_value_or_const_rejected", "Sigc.C05.nonconst_method_on_const_object_rejected",
     "Sigc.C05.incompatible_result_rejected", "Sigc.C05.convertible_accepted",
     "Sigc.C05.erased_call_type_exact",
+    "Sigc.C05.explicit_only_result_rejected", "Sigc.C05.explicit_only_type_result_rejected_for_arithmetic",
+    "Sigc.C05.explicit_only_result_connection_rejected", "Sigc.C05.acceptsRoute_retOk",
 ]
 TRUSTED = [
     "Lean 4.33.0 kernel; axioms per theorem as audited by #print axioms (subset of propext, Quot.sound, Classical.choice)",
     "the hand-written model lean/Sigc/Types.lean (binds/conv/castOk = my formalisation of [dcl.init.ref], [conv], "
-    "[expr.static.cast], [stmt.return] for the 9-base-type x 4-shape universe; take/fwd/collapse/hop = the library's "
-    "plumbing) — tied to the code only by this correspondence",
+    "[expr.static.cast], [stmt.return] for the 12-base-type x 4-shape universe; conv = *implicit* convertibility, "
+    "onlyExplicit = conversions that exist only as static_cast / direct-initialisation; take/fwd/collapse/hop = the "
+    "library's plumbing) — tied to the code only by this correspondence",
     "g++ 12 and clang++ 14 with libstdc++ 12 as the oracle for 'compiles'; they must agree with each other",
     "harness/types_gen.py: the rendering of a probe description as C++ (the same description is what the model decides) "
     "and the monitor tables; harness/types_prelude.h",
     "UBSan -fsanitize=function (clang++-14) for the run-time side of the C20 table",
 ]
 ASSUMPTIONS = [
-    "universe: base types int,long,double,bool,A,B:A,A*,B*,const A*; declared shapes T,T&,const T&,T&&; functor kinds "
+    "universe: base types int,long,double,bool,A,B:A,A*,B*,const A*, and three types whose explicit and implicit "
+    "convertibility differ: `enum class E : int`, `struct Xb { explicit operator bool() const; }`, "
+    "`struct Xd { explicit operator double() const; }`; declared shapes T,T&,const T&,T&&; functor kinds "
     "free function (&f, ptr_fun), function object (const / non-const operator()), lambda (plain / mutable), "
     "mem_fun(obj,&C::m) with {non-const,const} object x {-,const,volatile,const volatile} method; one adaptor hop "
-    "hide / bind / retype; routes slot<Sig> s = f, signal<Sig>::connect(f), signal_connect(sig, ...); arities 0-3 "
-    "(theorems: all arities)",
+    "hide / bind / retype (retype static_casts the *arguments*; retype_return, whose purpose is to cast the result, is "
+    "not in the universe); routes slot<Sig> s = f, signal<Sig>::connect(f), signal<Sig>::accumulated<Acc>::connect(f), "
+    "signal_connect(sig, ...); arities 0-3 (theorems: all arities)",
     "excluded corner (compilers disagree on the unchanged tree): `const A*&&` parameter facing an `A*&&` signature "
     "parameter (CWG 2352: g++-12 rejects the temporary that clang++-14 and the standard create)",
+    "excluded corner (compilers disagree on the unchanged tree): static_cast<const bool&>/<bool&&> of a class with "
+    "`explicit operator bool()` (same with double) — only reachable through retype(); clang++-14 accepts ([over.match.ref]), "
+    "g++-12 rejects; the model follows the standard",
     "excluded corner: hide() applied under a 0-ary signature (ill-formed; g++ rejects, clang++-14 does not terminate on "
     "make_index_sequence<SIZE_MAX>); the model rejects it",
-    "outside the universe: user-defined conversions, overloaded / templated / variadic functors (one generic-lambda and "
+    "outside the universe: implicit (non-explicit) user-defined conversions, std::unique_ptr / std::optional results "
+    "(two are pinned in the corpus), overloaded / templated / variadic functors (one generic-lambda and "
     "one slot-to-slot case are pinned in the corpus), volatile objects, default arguments, array parameters",
     "a value result offered to a void signature is rejected by the code (`return f(...)` in `void call_it`); the statement "
     "does not name this case, so the monitor leaves it unclassified and only model == compilers is checked",
@@ -359,14 +376,29 @@ def excluded(p):
     """corners kept out of the compiled universe (see ASSUMPTIONS)"""
     if "pcA:r" in p.fpar and "pA:r" in p.sig:
         return True          # CWG 2352: g++-12 and clang++-14 disagree with each other
+    if p.adaptor == "retype" and any(G.excluded_cast_pair(f, s.split(":")[0]) for s, f in zip(p.sig, p.fpar)):
+        return True          # static_cast<const bool&>(Xb): g++-12 and clang++-14 disagree with each other
     if p.adaptor.startswith("hide") and len(p.sig) == 0:
         return True          # hide() on a 0-ary signature: `size - 1` underflows into make_index_sequence<2^64-1>;
                              # g++ rejects at once, clang++-14 does not terminate (ill-formed either way)
     return False
 
 
+BASE_WEIGHTS = [(b, 5) for b in G.OLD_BASES] + [("E", 5), ("Xb", 3), ("Xd", 2)]
+
+
+def gen_base(rng):
+    """every old base type with weight 5, the explicit-only types E / Xb / Xd with 5 / 3 / 2 (together 10 of 55)"""
+    return rng.weighted(BASE_WEIGHTS)
+
+
 def gen_param(rng):
-    return "%s:%s" % (rng.choice(G.BASES), rng.choice(G.SHAPES))
+    return "%s:%s" % (gen_base(rng), rng.choice(G.SHAPES))
+
+
+def explicit_only_targets(b):
+    """object types that `b` converts to only explicitly"""
+    return sorted(t for (s, t) in G.EXPLICIT_ONLY if s == b)
 
 
 def compatible_params(arg):
@@ -397,7 +429,7 @@ def gen_probe(rng, stats):
     kind = rng.weighted([("fn", 4), ("ptrfun", 2), ("fobj", 2), ("fobjc", 1), ("lam", 4), ("lammut", 1), ("mem", 5)])
     if kind == "mem":
         kind = "mem:%s:%s" % (rng.weighted([("o", 3), ("c", 2)]), rng.weighted([("n", 4), ("c", 4), ("v", 1), ("cv", 1)]))
-    route = rng.weighted([("slot", 5), ("connect", 4), ("sigconn", 2)])
+    route = rng.weighted([("slot", 5), ("connect", 4), ("sigconn", 2), ("accum", 2)])
     if adaptor == "hide":
         if arity == 0 and rng.chance(0.8):
             sig = [gen_param(rng)]
@@ -406,7 +438,7 @@ def gen_probe(rng, stats):
             sig = [s if s[-1] != "r" or rng.chance(0.2) else s[:-1] + "c" for s in sig]
     elif adaptor == "bind":
         nb = rng.weighted([(1, 4), (2, 1)])
-        bs = ",".join(rng.choice(G.BASES) for _ in range(nb))
+        bs = ",".join(gen_base(rng) for _ in range(nb))
         loc = rng.choice(["last"] + [str(i) for i in range(len(sig) + 1)])
         adaptor = "bind:%s:%s" % (loc, bs)
         if rng.chance(0.8):
@@ -420,7 +452,7 @@ def gen_probe(rng, stats):
         kind = "fn"
     sret = rng.weighted([("void", 5), ("val", 5)])
     if sret == "val":
-        sret = rng.choice(G.BASES) + ":v"
+        sret = gen_base(rng) + ":v"
     flavour = rng.weighted([("compatible", 9), ("defect", 9), ("random", 3)])
     args = doc_args(sig, adaptor)
     if flavour == "random":
@@ -447,7 +479,7 @@ def gen_probe(rng, stats):
                 fret = sret
         if flavour == "defect":
             d = rng.weighted([("arity", 3), ("nonconv", 4), ("nonconstref", 4), ("rref", 4), ("constobj", 3),
-                              ("result", 4), ("voidness", 2)])
+                              ("result", 4), ("voidness", 2), ("explicitresult", 4), ("explicitparam", 2)])
             stats["defect:" + d] = stats.get("defect:" + d, 0) + 1
             if d == "arity":
                 if fpar and rng.chance(0.5):
@@ -470,9 +502,28 @@ def gen_probe(rng, stats):
                 kind = "mem:c:" + rng.choice(["n", "n", "v"])
                 if route == "sigconn" and adaptor != "none":
                     route = "connect"
+            elif d == "explicitresult":
+                # a result that converts to the signature's result type only *explicitly* (scoped enumeration <->
+                # arithmetic, explicit operator bool / double): static_cast would do it, `return` must not
+                fb, sb = rng.choice(sorted(G.EXPLICIT_ONLY))
+                if rng.chance(0.7):   # mostly the direction "exotic functor result into an arithmetic slot result"
+                    fb = rng.weighted([("E", 5), ("Xb", 3), ("Xd", 2)])
+                    sb = rng.choice(explicit_only_targets(fb))
+                sret = sb + ":v"
+                fret = fb + ":" + rng.weighted([("v", 4), ("l", 1), ("c", 1)])
+            elif d == "explicitparam" and fpar:
+                # the same at a parameter position: the argument converts to the functor parameter only explicitly
+                # (accepted through retype(), which static_casts; rejected everywhere else)
+                cand = [i for i in range(len(fpar)) if explicit_only_targets(args[i][0])]
+                if cand:
+                    i = rng.choice(cand)
+                    fpar[i] = rng.choice(explicit_only_targets(args[i][0])) + ":" + rng.choice("vvcr")
+                else:
+                    i = rng.below(len(fpar))
+                    fpar[i] = rng.choice(G.EXPLICIT_ONLY_BASES) + ":" + rng.choice("vc")
             elif d == "result":
                 if sret == "void":
-                    sret = rng.choice(G.BASES) + ":v"
+                    sret = gen_base(rng) + ":v"
                 sb = sret.split(":")[0]
                 bad = [t for t in G.FN_RETS if t != "void" and (t.split(":")[0], sb) not in G.CONVERTIBLE]
                 fret = rng.choice(bad) if bad else "void"
@@ -513,11 +564,58 @@ def balanced(rng, pool, n):
     return acc + rej
 
 
+def explicit_only_distribution(results):
+    """measured: where the types E / Xb / Xd occur in the probes that were compiled, and how the result pairs
+    (functor result x signature result) are related according to the model (`conv`: implicit / explicit / none)"""
+    d = {"probes": len(results), "mentioning_any": 0, "mentioning": {b: 0 for b in G.EXPLICIT_ONLY_BASES},
+         "in_result_pair": 0, "in_signature_params": 0, "in_functor_params": 0, "in_bound_args": 0,
+         "result_pair_conversion": {}, "explicit_only_result": {"route": {}, "adaptor": {}, "kind": {}, "pair": {},
+                                                                "model_verdict": {}, "compilers": {}},
+         "explicit_only_param_position": {"total": 0, "through_retype": 0}}
+    new = set(G.EXPLICIT_ONLY_BASES)
+    base = lambda t: t.split(":")[0]
+    pairs = sorted({(base(r["probe"].fret), base(r["probe"].sret)) for r in results
+                    if r["probe"].fret != "void" and r["probe"].sret != "void"})
+    rel = dict(zip(pairs, model(["conv %s %s" % fs for fs in pairs])))
+    for r in results:
+        p = r["probe"]
+        ad = p.adaptor.split(":")
+        bound = ad[2].split(",") if ad[0] == "bind" and ad[2] != "-" else []
+        res_b = {base(t) for t in (p.fret, p.sret) if t != "void"}
+        sig_b, fp_b = {base(t) for t in p.sig}, {base(t) for t in p.fpar}
+        used = (res_b | sig_b | fp_b | set(bound)) & new
+        if used:
+            d["mentioning_any"] += 1
+        for b in used:
+            d["mentioning"][b] += 1
+        d["in_result_pair"] += bool(res_b & new)
+        d["in_signature_params"] += bool(sig_b & new)
+        d["in_functor_params"] += bool(fp_b & new)
+        d["in_bound_args"] += bool(set(bound) & new)
+        if p.fret != "void" and p.sret != "void":
+            c = rel[(base(p.fret), base(p.sret))]
+            d["result_pair_conversion"][c] = d["result_pair_conversion"].get(c, 0) + 1
+            if c == "explicit":
+                e = d["explicit_only_result"]
+                for k, v in (("route", p.route), ("adaptor", ad[0]), ("kind", p.kind.split(":")[0]),
+                             ("pair", "%s->%s" % (base(p.fret), base(p.sret))), ("model_verdict", r["model"]),
+                             ("compilers", "/".join(sorted(set(r["impl"].values()))))):
+                    e[k][v] = e[k].get(v, 0) + 1
+        if ad[0] in ("none", "retype") and len(p.sig) == len(p.fpar):
+            n = sum(1 for s_, f_ in zip(p.sig, p.fpar) if (base(s_), base(f_)) in G.EXPLICIT_ONLY)
+            if n:
+                d["explicit_only_param_position"]["total"] += 1
+                d["explicit_only_param_position"]["through_retype"] += ad[0] == "retype"
+    return d
+
+
 def exhaustive_arity1():
     out = []
     for kind in ("fn", "lam", "fobj"):
         for s in G.ALL_PARAMS:
             for f in G.ALL_PARAMS:
+                if kind != "fn" and (s.split(":")[0] in G.EXPLICIT_ONLY_BASES or f.split(":")[0] in G.EXPLICIT_ONLY_BASES):
+                    continue         # pairs involving E / Xb / Xd: once (free function) — keeps the tier's wall time
                 p = G.Probe("slot", "none", kind, "void", [s], "void", [f])
                 if not excluded(p):
                     out.append(p)
@@ -606,7 +704,7 @@ def table_check(env, kind, infra):
     for p in G.ALL_PARAMS:
         for e in G.EXPRS:
             b, c = e.split(":")
-            if G.excluded_pair(p, b, c in ("x", "p")):
+            if G.excluded_pair(p, b, c in ("x", "p")) or (kind == "cast" and G.excluded_cast_pair(p, b)):
                 continue
             rows.append((p, e))
     ans = model(["%s %s %s" % (kind, p, e) for p, e in rows])
@@ -800,7 +898,7 @@ def correspondence(ctx):
         mon += m
         t_tables = time.time() - t0
         # 3. generated probes
-        n = 3000 if ctx.thorough else 600
+        n = 3300 if ctx.thorough else 660
         pool = generated_pool(ctx.rng, n * 4, stats)
         probes = balanced(ctx.rng, pool, n)
         if ctx.thorough:
@@ -847,6 +945,7 @@ def correspondence(ctx):
                 dist[k][v] = dist[k].get(v, 0) + 1
             if r["model"] != "accept":
                 dist["reject_reason"][r["why"]] = dist["reject_reason"].get(r["why"], 0) + 1
+        dist["explicit_only_types"] = explicit_only_distribution(allres)
         dist["tables"] = {"binds_rows": len(brow), "binds_true": sum(1 for x in brow if x[2]),
                           "cast_rows": len(crow), "cast_true": sum(1 for x in crow if x[2]),
                           "passed_spies": len(srow), "c20_cases": len(rows20), "corpus_probes": len(corp),
